@@ -82,6 +82,13 @@ func c11Worlds(tier string) []*world.Spec {
 		}},
 		{Path: "/m2", Schema: modSchema, Files: []world.FileSpec{{Name: "m.tf", Text: "variable \"in\" {\n}\noutput \"out\" {\n  value = var.in\n}\n"}}},
 	}})
+	// the target path of a path origin cannot be read (a module not loaded yet) while the calling path declares
+	// something of the same address: the origin must not be resolved locally
+	out = append(out, &world.Spec{SchemaID: "X:target-path-unreadable", HookItems: -1, Paths: []world.PathSpec{
+		{Path: "/root", Schema: modSchema, Funcs: gen.Functions, Files: []world.FileSpec{
+			{Name: "main.tf", Text: "module \"one\" {\n  source = \"./m1\"\n  in = \"eu\"\n}\noutput \"out\" {\n  value = module.one.out\n}\nvariable \"in\" {\n}\n"}}},
+		{Path: "/m1", Schema: modSchema, Funcs: gen.Functions, Files: []world.FileSpec{{Name: "m.tf", Text: "variable \"in\" {\n}\noutput \"out\" {\n  value = var.in\n}\n"}}},
+	}})
 	// two caller paths that are textual copies of each other (same file names, same ranges), both pointing into /m1
 	out = append(out, &world.Spec{SchemaID: "X:copied-callers", HookItems: -1, Paths: []world.PathSpec{
 		{Path: "/envs/dev", Schema: modSchema, Funcs: gen.Functions, Files: []world.FileSpec{{Name: "main.tf", Text: "module \"one\" {\n  source = \"./m1\"\n  in = \"eu\"\n}\noutput \"o\" {\n  value = module.one.out\n}\n"}}},
@@ -230,6 +237,10 @@ func c11Converse(sp *world.Spec, w *world.World, c *report.Collector, l *report.
 func c11World(sp *world.Spec, c *report.Collector, l *report.Local) {
 	w := world.Build(sp)
 	l.Count("worlds", 1)
+	if sp.SchemaID == "X:target-path-unreadable" {
+		// collected while readable, queried while not
+		w.Reader.Fail[world.PK(lang.Path{Path: "/m1"})] = true
+	}
 	c11Converse(sp, w, c, l)
 	for pi := range w.Paths {
 		ctx := w.Ctx(pi)
